@@ -572,6 +572,41 @@ def fmt_poly(p):
 # ------------------------------------------------------------------------------------------------
 # the rule
 # ------------------------------------------------------------------------------------------------
+def driver_semantics(ix, fd):
+    """None if peephole_function_definition returns `self` with body := P^n(self.body), n >= 0, on every path
+    (P = peephole_statement, opaque; equality tests on its results fork; `while` loops are followed for
+    LOOP_BOUND rounds, longer paths have the same shape by induction)."""
+    from . import symeval as S
+
+    G = {}
+    for st in ix.module(MOD).body:
+        if isinstance(st, ast.FunctionDef) and not st.decorator_list:
+            G[st.name] = st
+    G["peephole_statement"] = lambda x: S.Sym(f"P({x!r})")
+    G["replace"] = lambda obj, **kw: S.Obj(obj.tag, **{**obj.attrs, **kw})
+    me = S.Obj("FunctionDefinition", name=S.Sym("name"), parameters=S.Sym("parameters"), return_type=S.Sym("return_type"), body=S.Sym("body"))
+    seen = 0
+    for _assume, (kind, val) in S.explore(fd, [me], globals_=G):
+        if kind == "cut":
+            continue
+        if kind != "return":
+            return f"driver not interpretable: {kind} {val!r}"
+        seen += 1
+        if not (isinstance(val, S.Obj) and val.tag == "FunctionDefinition"):
+            return f"driver returns {val!r}, not a FunctionDefinition"
+        for fld in ("name", "parameters", "return_type"):
+            if val.attrs.get(fld) is not me.attrs[fld]:
+                return f"driver changes the function's {fld}"
+        body = repr(val.attrs.get("body"))
+        while body.startswith("P(") and body.endswith(")"):
+            body = body[2:-1]
+        if body != "body":
+            return f"driver returns a function whose body is {val.attrs.get('body')!r}, not the optimiser applied to the original body"
+    if seen == 0:
+        return "driver not interpretable: no path returns"
+    return None
+
+
 def run(ctx):
     ix = SourceIndex(ctx.src)
     import_tensora(ctx.src)
@@ -667,12 +702,13 @@ def run(ctx):
     if len(paths) == 1 and paths[0][1] == ("REPLACE", ("SELF",), (("body", ("OPT", "body", "peephole_statement")),)):
         ctx.ok("C07.wiring", "ir/_peephole.py:peephole_function_definition")
     else:
-        opaque = "'?'" in repr([p_[1] for p_ in paths])
-        ctx.fail(
-            "C07.wiring",
-            "ir/_peephole.py:peephole_function_definition",
-            ("driver not interpretable (calls a helper the rule does not model): " if opaque else "") + f"not `replace(self, body=peephole_statement(self.body))`: {paths}",
-        )
+        # any other driver: evaluated abstractly with peephole_statement as an opaque meaning-preserving map P;
+        # every result must be the function with its body replaced by P^n(body) and nothing else changed
+        why = driver_semantics(ix, fd)
+        if why is None:
+            ctx.ok("C07.wiring", "ir/_peephole.py:peephole_function_definition [driver evaluated abstractly]")
+        else:
+            ctx.fail("C07.wiring", "ir/_peephole.py:peephole_function_definition", why)
     pm = ix.func(f"{MOD}.peephole").node
     r.instances += 1
     ok = False
